@@ -79,16 +79,41 @@ fn classify(gt: &str) -> Expect {
 pub struct Ctx {
     partner: &'static str,
     probe_first: bool,
+    /// the probe record is monomorphic (`ALT = .`); only for GT strings over alleles {., 0}
+    alt_dot: bool,
 }
 
 const CTXS: [Ctx; 6] = [
-    Ctx { partner: "0/0", probe_first: true },
-    Ctx { partner: "0/0", probe_first: false },
-    Ctx { partner: "./.", probe_first: true },
-    Ctx { partner: "./.", probe_first: false },
-    Ctx { partner: "1/2", probe_first: true },
-    Ctx { partner: "1/2", probe_first: false },
+    Ctx { partner: "0/0", probe_first: true, alt_dot: false },
+    Ctx { partner: "0/0", probe_first: false, alt_dot: false },
+    Ctx { partner: "./.", probe_first: true, alt_dot: false },
+    Ctx { partner: "./.", probe_first: false, alt_dot: false },
+    Ctx { partner: "1/2", probe_first: true, alt_dot: false },
+    Ctx { partner: "1/2", probe_first: false, alt_dot: false },
 ];
+
+const ALT_DOT: Ctx = Ctx { partner: "0/0", probe_first: true, alt_dot: true };
+
+/// Allele indices far beyond the declared ALT alleles (text path only: they do not fit the int8
+/// vectors of the BCF writer): values around the limits of 8-, 16- and 32-bit integers, whose
+/// truncation would turn them into 0 or 1.
+const HUGE_ALLELES: [&str; 7] = ["255", "256", "257", "65535", "65536", "65537", "4294967295"];
+
+fn huge_gt_strings() -> Vec<String> {
+    let mut out = Vec::new();
+    for h in HUGE_ALLELES {
+        for small in ["0", "1", "."] {
+            for sep in ["/", "|"] {
+                out.push(format!("{small}{sep}{h}"));
+                out.push(format!("{h}{sep}{small}"));
+            }
+        }
+        out.push(format!("{h}/{h}"));
+        out.push(h.to_string());
+        out.push(format!("0/{h}/1"));
+    }
+    out
+}
 
 fn call_set(gt: &str, ctx: Ctx) -> CallSet {
     let mut cs = CallSet::new(2);
@@ -104,7 +129,7 @@ fn call_set(gt: &str, ctx: Ctx) -> CallSet {
         }
     };
     cs.records.push(Record { chrom: 0, pos: 3, alts: alts.clone(), gts: pair("0/0", "0|0"), decorated: false });
-    cs.records.push(Record { chrom: 1, pos: 7, alts: alts.clone(), gts: pair(gt, ctx.partner), decorated: false });
+    cs.records.push(Record { chrom: 1, pos: 7, alts: if ctx.alt_dot { vec![] } else { alts.clone() }, gts: pair(gt, ctx.partner), decorated: false });
     cs.records.push(Record { chrom: 1, pos: 9, alts, gts: pair("0|0", "0/0"), decorated: false });
     cs
 }
@@ -144,6 +169,7 @@ fn case_j(gt: &str, container: Container, selected: bool, ctx: Ctx, bytes: &[u8]
         ("gt", J::s(gt)),
         ("partner", J::s(ctx.partner)),
         ("probe_first", J::Bool(ctx.probe_first)),
+        ("alt_dot", J::Bool(ctx.alt_dot)),
         ("container", J::s(container.name())),
         ("probe_selected", J::Bool(selected)),
         ("bytes_hex", J::s(hex(bytes))),
@@ -321,6 +347,28 @@ pub fn run(tier: Tier) -> i32 {
             }
         }
     }
+    // monomorphic probe records for the strings that only use alleles {., 0}
+    let n_plain = gts.len();
+    for (i, g) in gts.iter().enumerate() {
+        if g.chars().all(|c| matches!(c, '.' | '0' | '/' | '|')) {
+            for c in [Container::Vcf, Container::RawBcf] {
+                for sel in [true, false] {
+                    jobs.push((i, c, sel, ALT_DOT));
+                }
+            }
+        }
+    }
+    // huge allele indices, text path
+    let mut gts = gts;
+    let huge = huge_gt_strings();
+    for h in &huge {
+        gts.push(h.clone());
+        for c in [Container::Vcf, Container::VcfGz] {
+            for sel in [true, false] {
+                jobs.push((gts.len() - 1, c, sel, CTXS[0]));
+            }
+        }
+    }
     let res = par_map(jobs.len(), |j| eval_lib(&gts[jobs[j].0], jobs[j].1, jobs[j].2, jobs[j].3));
     let mut nt = 0u64;
     for ((i, _, sel, _), v) in jobs.iter().zip(res) {
@@ -339,7 +387,7 @@ pub fn run(tier: Tier) -> i32 {
         name: "lib: every GT string x path x role".into(),
         evaluations: jobs.len() as u64,
         nontrivial: nt,
-        note: format!("{} strings x 4 containers x 2 roles; in vcf and raw bcf additionally x partner genotype {{0/0, ./., 1/2}} x column order", gts.len()),
+        note: format!("{n_plain} strings x 4 containers x 2 roles; in vcf and raw bcf additionally x partner genotype {{0/0, ./., 1/2}} x column order, and the strings over {{., 0}} also at a monomorphic (ALT=.) record; {} strings with allele indices 255..4294967295 in the text path", huge.len()),
         exhaustive: true,
         extra: vec![],
     });
@@ -361,11 +409,14 @@ pub fn run(tier: Tier) -> i32 {
     let mut cj: Vec<(usize, Container, bool)> = Vec::new();
     for (i, g) in gts.iter().enumerate() {
         let ploidy = parse_gt(g).len();
-        let take = ploidy <= 2 || tier.thorough() || i % 10 == 0;
+        let take = ploidy <= 2 || tier.thorough() || i % 10 == 0 || i >= n_plain;
         if !take {
             continue;
         }
         for c in [Container::Vcf, Container::RawBcf] {
+            if i >= n_plain && c == Container::RawBcf {
+                continue;
+            }
             cj.push((i, c, true));
             if ploidy != 2 || i % 4 == 0 || tier.thorough() {
                 cj.push((i, c, false));
@@ -399,7 +450,8 @@ pub fn replay(case: &J) -> Option<Vec<String>> {
     let scratch = Scratch::new("c08r");
     let partner = case.get("partner").and_then(|p| p.as_str()).unwrap_or("0/0");
     let probe_first = !matches!(case.get("probe_first"), Some(J::Bool(false)));
-    let ctx = CTXS.iter().copied().find(|x| x.partner == partner && x.probe_first == probe_first)?;
+    let alt_dot = matches!(case.get("alt_dot"), Some(J::Bool(true)));
+    let ctx = if alt_dot { ALT_DOT } else { CTXS.iter().copied().find(|x| x.partner == partner && x.probe_first == probe_first)? };
     let mut v: Vec<Viol> = eval_lib(&gt, c, sel, ctx).into_iter().collect();
     v.extend(eval_cli(&gt, c, sel, &scratch));
     Some(v.into_iter().map(|(k, w, _)| format!("{k} :: {w}")).collect())
